@@ -10,20 +10,20 @@ CONSTANTS
   SentAddrs = {4096}
   SLOT = 1048576
   MinAligns = {1, 8}
-  Sizes = {4, 12}
-  Aligns = {4, 16}
+  Sizes = {12, 420}
+  Aligns = {4}
   Caps = {}
   Limits = {}
-  MaxSlots = 6
-  MaxLive = 3
+  MaxSlots = 5
+  MaxLive = 4
   MaxRefuse = 0
-  GrowIncs = {1, 8}
-  ShrinkDecs = {0, 8}
-  ClosSizes = {}
+  GrowIncs = {}
+  ShrinkDecs = {}
+  ClosSizes = {30}
   TrackLive = TRUE
   EnableTryFill = FALSE
-  TwSlots <- TwNone
-  MaxDepth = 5
+  TwSlots <- TwReal
+  MaxDepth = 4
 INVARIANTS
   Emit
   NoObligationFailed
